@@ -309,6 +309,7 @@ func TestCheck(t *testing.T) {
 	r.Set("crash_images_generated", c.images.Load())
 	r.Set("recoveries", rec)
 	r.Set("post_recovery_continuations", c.conts.Load())
+	r.Set("second_crash_recoveries", c.recoveries2.Load())
 	r.Set("fault_runs", c.faultRuns.Load())
 	r.Set("fs_ops_in_histories", c.opsSeen.Load())
 	r.Set("max_fs_ops_in_one_run", c.maxOps.Load())
